@@ -111,8 +111,6 @@ Proof.
   now rewrite E.
 Qed.
 
-Lemma ascii_nil_iff {A} (f : A -> list N) : True. Proof. exact I. Qed.
-
 (* ---- RFC 3629: decoding the UTF-8 encoding of a text gives the text back ---- *)
 Lemma decode_rune_utf8_char c rest : is_scalar c ->
   decode_rune (utf8_char c ++ rest) = (c, length (utf8_char c)).
